@@ -181,7 +181,7 @@ def run_threaded(ctx, case):
 
 # ---- (c) the same threaded programs under the deterministic scheduler (line granularity in tape_recorder.py)
 
-def run_scheduled(ctx, case, extra_check=None, chooser=None, account=True):
+def run_scheduled(ctx, case, extra_check=None, chooser=None, account=True, after=None):
     from pbt import detsched as DS
     from playback.tape_recorder import TapeRecorder
     from pbt import zoo
@@ -251,6 +251,18 @@ def run_scheduled(ctx, case, extra_check=None, chooser=None, account=True):
         created = [e for e in cas.spy_log if e[0] == 'create']
         fin = [e for e in cas.spy_log if e[0] in ('save', 'abort')]
         ctx.count('scheduled:finalisations=%d' % len(fin))
+        if after is not None:
+            # follow-up work on the same recorder once the schedule is over (no scheduler any more)
+            DS.install(None)
+            for name, val in list(vars(rec).items()):
+                if isinstance(val, (DS.CoRLock, DS.CoLock)):
+                    import threading as _t
+                    setattr(rec, name, _t.RLock())
+            try:
+                after(rec, cas, prog)
+            except Violation as v:
+                v.case = dict(case, sched={'mode': 'trace', 'trace': list(sched.trace)})
+                raise
         if extra_check is not None:
             try:
                 extra_check(list(cas.spy_log))
